@@ -29,7 +29,7 @@ ASSUMPTIONS = [
     "precision of the arc writer (KF-ARC-D-6DIGITS, C07) and everything else at 1e-9",
 ]
 TOLERANCES = {"point": "1e-12 * scale", "concat-shape-point": "2e-11 * scale (12 significant digits of the d() text)", "concat-shape-arc": "1e-5 * scale (six significant digits of radii/rotation)"}
-MANDATORY_LABELS = {"quick": ["op:add", "op:iadd", "op:parse", "op:moveadd", "concat:path", "concat:shape", "observed-before-step"]}
+MANDATORY_LABELS = {"quick": ["ctor:kw", "ctor:dict", "op:add", "op:iadd", "op:parse", "op:moveadd", "concat:path", "concat:shape", "observed-before-step"]}
 MANDATORY_LABELS["thorough"] = MANDATORY_LABELS["quick"]
 
 STATE_DEP = set("mlhvcsqtazZHVSTa")
@@ -60,7 +60,7 @@ def decode_split(d):
         prev = c
     pieces.append(text[prev:])
     ops = [d.choice(["add", "iadd", "parse"]) for _ in pieces[1:]]
-    case = {"pieces": pieces, "ops": ops}
+    case = {"pieces": pieces, "ops": ops, "ctor": d.choice(lib.CTOR_FORMS)}
     if d.chance(1, 3):
         # the growing path is measured (length, point, bounding box) before some of the steps
         case["observe"] = [d.bool() for _ in ops]
@@ -192,7 +192,8 @@ def check(case):
         last_kind = "M"
         o.label("after:M first:%s" % pieces[1].lstrip()[:1])
     else:
-        p = se.Path(pieces[0])
+        p = lib.path_from_text(pieces[0], case.get("ctor", "pos"))
+        o.label("ctor:%s" % case.get("ctor", "pos"))
         for step, (piece, op) in enumerate(zip(pieces[1:], ops)):
             first = piece.lstrip()[:1]
             if case.get("observe") and case["observe"][step]:
